@@ -175,6 +175,12 @@ def cases(rng, tier):
         for sform in ("key", "jwk", "bytes"):
             for vform in ("jwks-dict", "keyset", "key", "jwk"):
                 out.append({"op": "kidless", "alg": alg, "sform": sform, "vform": vform, "kind": "kidless"})
+    # large payloads (hundreds of KiB) in all three serializations, and JWT claims whose values merely look like numbers: what was signed comes back
+    for alg in ("HS256", "ES256"):
+        for ser in ("compact", "flat", "general"):
+            out.append({"op": "large", "alg": alg, "ser": ser, "size": 300_000, "kind": "large"})
+    for claims in ({"exp": "99999999999", "iat": "5", "nbf": "0", "sub": "1"}, {"exp": 99999999999, "x": "007", "aud": "42"}, {"exp": 99999999999.5, "iat": 1.0}):
+        out.append({"op": "jwt_claims_back", "alg": "HS256", "claims": claims, "kind": "claims-back"})
     # the library's default instance `authlib.jose.jwt` (what the rest of the library and most applications use): every registered algorithm but none
     for alg in [a for a in R.ALL_ALGS if a != "none"]:
         out.append({"op": "default_jwt", "alg": alg, "kind": "default-instance"})
@@ -275,6 +281,27 @@ def impl(c):
         h = r["header"] if c["ser"] == "flat" else r["header"][0]
         return {"signed_protected": signed, "wire_unprotected": ent.get("header"), "reported_protected": dict(h.protected), "reported_unprotected": dict(h.header),
                 "want": [prot, unprot], "ref_ok": bool(R.verify(c["alg"], raw_key(c["alg"]), ent["protected"].encode() + b"." + o["payload"].encode(), lenient(ent["signature"].encode())))}
+    if c["op"] == "large":
+        J = JsonWebSignature()
+        payload = (b"0123456789abcdef" * (c["size"] // 16 + 1))[:c["size"]]
+        priv, pub = authlib_key(c["alg"], 1, "key", True), authlib_key(c["alg"], 1, "key", False)
+        try:
+            if c["ser"] == "compact":
+                got = J.deserialize_compact(J.serialize_compact({"alg": c["alg"]}, payload, priv), pub)["payload"]
+            else:
+                hdr = {"protected": {"alg": c["alg"]}}
+                got = J.deserialize_json(J.serialize_json(hdr if c["ser"] == "flat" else [hdr], payload, priv), pub)["payload"]
+            return {"same": got == payload}
+        except Exception as e:
+            return {"same": False, "error": type(e).__name__ + ": " + str(e)[:60]}
+    if c["op"] == "jwt_claims_back":
+        jw = JsonWebToken(["HS256"])
+        k = OctKey.import_key(HS_SECRET)
+        try:
+            got = jw.decode(jw.encode({"alg": "HS256"}, c["claims"], k), k)
+            return {"same": dict(got) == c["claims"] and json.loads(json.dumps(dict(got))) == c["claims"], "got": json.loads(json.dumps(dict(got)))}
+        except Exception as e:
+            return {"same": False, "error": type(e).__name__ + ": " + str(e)[:60]}
     if c["op"] == "kidless":
         jw = JsonWebToken([c["alg"]])
         alg = c["alg"]
@@ -499,7 +526,7 @@ def verify_entries(c, pairs):
 
 
 def model_line(c):
-    if c["op"] in ("kidless", "default_jwt", "hskey", "jwt_reuse", "eddsa_curve", "keyset_rotation", "resolver", "json_headers", "json_mixed"):
+    if c["op"] in ("large", "jwt_claims_back", "kidless", "default_jwt", "hskey", "jwt_reuse", "eddsa_curve", "keyset_rotation", "resolver", "json_headers", "json_mixed"):
         return None
     if c["op"] == "hmac":
         return {"op": "hmac", "bits": c["bits"], "k": c["k"], "m": c["m"], "key": {"oct": ""}, "headers": {}}
@@ -556,6 +583,15 @@ def oracle(c, out):
                       {"alg": c["alg"], "op": "json_headers", "kind": "wrong-content"}))
         if not out["ref_ok"]:
             v.append((f"{c['ser']} JSON JWS is not accepted by the independent verifier", {"alg": c["alg"], "op": "json_headers", "kind": "own-token-refused"}))
+        return v
+    if c["op"] == "large":
+        if not out["same"]:
+            v.append((f"{c['alg']} {c['ser']} JWS over a {c['size']}-octet payload produced by the library is not returned as signed under the matching key: {out.get('error', 'payload differs')}",
+                      {"alg": c["alg"], "op": "large", "kind": "own-token-refused"}))
+        return v
+    if c["op"] == "jwt_claims_back":
+        if not out["same"]:
+            v.append((f"JWT with claims {c['claims']} decodes to {out.get('got', out.get('error'))}: not exactly the payload that was signed", {"alg": "HS256", "op": "jwt_claims_back", "kind": "roundtrip"}))
         return v
     if c["op"] == "kidless":
         if not out.get("accepted"):
@@ -667,6 +703,8 @@ def classify(c, out):
         return f"keyset_rotation/{c['how']}"
     if c["op"] == "resolver":
         return "resolver/" + ("accepted" if out.get("accepted") else "refused")
+    if c["op"] in ("large", "jwt_claims_back"):
+        return c["op"]
     if c["op"] == "kidless":
         return f"kidless/{c['sform']}/{c['vform']}"
     if c["op"] == "default_jwt":
@@ -687,6 +725,8 @@ def nontrivial(c, out):
         return [c["alg"], c["how"]]
     if c["op"] == "resolver":
         return [c[k] for k in ("alg", "returns", "signed_by", "jwk_header", "api")]
+    if c["op"] in ("large", "jwt_claims_back"):
+        return [c["op"], c["alg"], c.get("ser"), str(c.get("claims"))]
     if c["op"] == "kidless":
         return [c["alg"], c["sform"], c["vform"]]
     if c["op"] == "default_jwt":
